@@ -274,9 +274,8 @@ func (m *Model) Step(e Ev) Result {
 			if (m.Conf|m.Failed)&(1<<uint(e.Pid)) != 0 {
 				return Result{Exp: ExpReject, Why: "participant counted twice"}
 			}
-			if e.Late {
-				return Result{Exp: ExpEither}
-			}
+			// a late time stamp is nothing special here: the statement knows no
+			// deadline for contributions to a batch
 			if e.Var != 0 {
 				// junk partial signature: whether it is refused on arrival or
 				// when reconstruction is attempted is not fixed; the sampled
@@ -295,9 +294,6 @@ func (m *Model) Step(e Ev) Result {
 			}
 			if (m.Conf|m.Failed)&(1<<uint(e.Pid)) != 0 {
 				return Result{Exp: ExpReject, Why: "participant already answered"}
-			}
-			if e.Late {
-				return Result{Exp: ExpEither}
 			}
 			m.Failed |= 1 << uint(e.Pid)
 			if popcount(m.Failed) > m.N-m.T {
